@@ -220,7 +220,16 @@ pub fn after_call(
         let (_, count, cap, _incoming, _) = pr.ins.verif_view();
         let is_new = !m.g.per[v].flow.contains_key(&u);
         let rec = m.g.per[v].flow.entry(u).or_default();
-        let is_event = event_all || event_from == Some(u) || is_new;
+        // An acknowledgement that is not news (a duplicate or a late one: index at or below what
+        // the leader already recorded) frees no capacity and does not end a probe pause.
+        let stale_ack = matches!(op, Op::Step(x) if x.from == u
+            && x.get_msg_type() == MessageType::MsgAppendResponse
+            && !x.reject
+            && x.index <= rec.last_matched);
+        if stale_ack {
+            m.stats.inc("c13.stale_acks_stepped");
+        }
+        let is_event = event_all || (event_from == Some(u) && !stale_ack) || is_new;
         if is_event {
             rec.k = 0;
             rec.cap_since = cap;
@@ -314,6 +323,18 @@ pub fn after_call(
             m.stats.inc("c13.calls_in_snapshot_state");
         }
         if let Some((sig, why)) = bad {
+            if sig == "send-while-snapshot-outstanding" {
+                // the same observation refutes C15's "resumes replication after the snapshot index
+                // once it is reported done"
+                m.violation(
+                    "C15",
+                    "resume-after-snapshot",
+                    "replication-resumed-before-snapshot-reported".into(),
+                    format!("leader {} (term {}) in {}: {}", id, post.term, op.short(), why),
+                    id,
+                    step,
+                );
+            }
             m.violation(
                 "C13",
                 "flow-control",
